@@ -164,3 +164,12 @@ pub assume_specification<T> [core::mem::replace::<T>] (dest: &mut T, src: T) -> 
 // serial / wrapping arithmetic on 32-bit sequence numbers (RFC 1982 as used by AMQP 1.0)
 pub open spec fn add32(a: u32, b: int) -> u32 { ((a as int + b) % 0x1_0000_0000) as u32 }
 pub open spec fn sub32(a: u32, b: u32) -> u32 { ((a as int - b as int) % 0x1_0000_0000) as u32 }
+
+/// R35: `v.extend(x)` (this Verus has no specification for Vec::extend): the elements x yields are appended in order -- an Option yields none or one, a Vec all of its elements
+pub trait IntoSeqS<T>: Sized { spec fn seq_of(self) -> Seq<T>; }
+impl<T> IntoSeqS<T> for Option<T> { open spec fn seq_of(self) -> Seq<T> { match self { Some(x) => seq![x], None => Seq::<T>::empty() } } }
+impl<T> IntoSeqS<T> for Vec<T> { open spec fn seq_of(self) -> Seq<T> { self@ } }
+#[verifier::external_body]
+pub fn vec_extend_s<T, I: IntoSeqS<T>>(v: &mut Vec<T>, it: I)
+    ensures final(v)@ == old(v)@ + it.seq_of(),
+{ unimplemented!() }
